@@ -352,6 +352,35 @@ fn body_matches<S: Semiring>(sr: &S, r: &Rule, m: &Model<S::V>, out: &mut Vec<(B
     rec(sr, r, m, 0, [None; MAXV], sr.one(), out);
 }
 
+/// One ground instance of a rule: matched positive facts, ground negated atoms, ground heads.
+#[derive(Clone, Debug, PartialEq, Eq)]
+pub struct Instance {
+    pub body: Vec<Fact>,
+    pub neg: Vec<Fact>,
+    pub heads: Vec<Fact>,
+}
+
+/// every ground instance of `r` whose positive body lies in `facts` and whose filters hold
+/// (negated atoms are returned ground, not evaluated)
+pub fn instances(r: &Rule, facts: &BTreeSet<Fact>, syms: &Symbols, nn: NonNumeric) -> Vec<Instance> {
+    let m: Model<bool> = facts.iter().map(|f| (*f, (true, 0))).collect();
+    let mut ms = Vec::new();
+    body_matches(&BoolSr, r, &m, &mut ms);
+    let mut out = Vec::new();
+    'b: for (b, _) in ms {
+        for f in &r.filters {
+            if !filter_ok(f, &b, syms, nn) {
+                continue 'b;
+            }
+        }
+        let g = |atoms: &Vec<Atom>| -> Option<Vec<Fact>> { atoms.iter().map(|a| ground(a, &b)).collect() };
+        if let (Some(body), Some(neg), Some(heads)) = (g(&r.pos), g(&r.neg), g(&r.heads)) {
+            out.push(Instance { body, neg, heads });
+        }
+    }
+    out
+}
+
 /// naive iteration of the rules `idx` on top of `m` until nothing changes; negated atoms are read
 /// against `neg_base` (a finished lower stratum): present with non-zero value => the atom fails.
 fn fixpoint<S: Semiring>(sr: &S, rules: &[Rule], idx: &[usize], m: &mut Model<S::V>, neg_base: Option<&Model<S::V>>, syms: &Symbols, nn: NonNumeric, round0: u32) -> u32 {
